@@ -514,6 +514,8 @@ impl Group for C06Node {
                 };
                 Some(format!("init {} {} {} {} {} {}", nch, p.max_routing_fee_msat, p.max_feerate_percentage, p.cltv_delta, vl, vt))
             }
+            ["keysend", a, b, c, "direct"] => Some(format!("keysend {} {} {}", a, b, c)),
+            ["invoice", a, b, c, d, e, "direct"] => Some(format!("invoice {} {} {} {} {}", a, b, c, d, e)),
             ["cpsign", a, b, c, d, "p1"] => Some(format!("cpsign {} {} {} {}", a, b, c, d)),
             ["hval", a, b, c, d, "p1"] => Some(format!("hval {} {} {} {}", a, b, c, d)),
             _ => Some(op.to_string()),
@@ -560,6 +562,11 @@ impl Group for C06Node {
             // routed payment whose incoming part is gone (issue-331 tolerance): the entry must survive the heartbeat while
             // value is still outgoing, and a restart; once nothing is in flight the heartbeat drops it and the hash is unseen again
             split(&format!("init 3|hval 0 new - 1:50000:600|revoke 0|cpsign 0 new 1:50000:600 -|cpsign 1 new - 1:50000:500|cprevoke 0|cpsign 0 new - -|heartbeat {}|cpsign 2 new - 1:600:500|restart|heartbeat {}|cprevoke 2|cpsign 2 new - 1:600:500,1:700:500|cprevoke 1|cpsign 1 new - -|cprevoke 2|cpsign 2 new - -|hval 0 new - -|revoke 0|heartbeat {}|cprevoke 2|cpsign 2 new - 1:600:500", t + 1, t + 2, t + 3)),
+            // add_invoice / add_keysend called directly (no approver shortcut in front): repeat, different invoice, keysend over invoice
+            split(&format!("init 2|invoice 0 100000000 {t} 3600 0 direct|invoice 0 100000000 {t} 3600 0 direct|invoice 0 100000000 {t} 3600 1 direct|keysend 0 100000000 {t} direct|keysend 1 5000000 {t} direct|keysend 1 7000000 {t} direct|invoice 1 5000000 {t} 3600 0 direct|cpsign 0 new - 1:5222:500|cpsign 1 new - 1:600:500")),
+            // an unfulfilled keysend past its prune time stays approved while its HTLC is in flight: the repeat is a repeat,
+            // a second payment on another channel is refused; after the HTLC left, the heartbeat prunes it
+            split(&format!("init 2|keysend 0 100000000 {t}|cpsign 0 new - 0:100000:500|heartbeat {}|keysend 0 100000000 {}|cpsign 1 new - 0:100000:500|restart|heartbeat {}|cpsign 1 new - 0:100000:500 p1|cprevoke 0|cpsign 0 new - -|heartbeat {}|cpsign 1 new - 0:600:500", t + 61, t + 61, t + 62, t + 63)),
             // u64 extreme approval: a + max_routing_fee overflows
             split(&format!("init 2|keysend 0 18446744073709551615 {t}|cpsign 0 new - 0:2000:500|cpsign 1 new - -")),
         ]
@@ -581,10 +588,10 @@ impl Group for C06Node {
                 format!("keysend {} {} {}", h, amt, now)
             };
             // now and then the approver (user) says no
-            if rng.chance(1, 8) {
-                format!("{} neg", line)
-            } else {
-                line
+            match rng.below(8) {
+                0 => format!("{} neg", line),
+                1 | 2 => format!("{} direct", line),
+                _ => line,
             }
         };
         let mut sims: Vec<Sim> = vec![Sim::default(); nch];
@@ -647,6 +654,25 @@ impl Group for C06Node {
             sims[c2].cp_out.push((h, 600, 500));
             ops.push(format!("cprevoke {}", c2));
             ops.push(sims[c2].cpsign(c2, "new"));
+        }
+        if rng.chance(1, 8) {
+            // pay a keysend, let its prune time pass (sometimes with the preimage known), heartbeat, approve again, pay again elsewhere
+            let h = rng.below(NHASH as u64) as usize;
+            let (a, b) = (0usize, nch - 1);
+            ops.push(format!("keysend {} 100000000 {}", h, now));
+            sims[a].cp_out.push((h, 100_000, 500));
+            ops.push(sims[a].cpsign(a, "new"));
+            if rng.chance(1, 4) {
+                ops.push(format!("fulfill {} {}", a, h));
+            }
+            now += *rng.pick(&[60u64, 61, 100]);
+            ops.push(format!("heartbeat {}", now));
+            if rng.chance(1, 3) {
+                ops.push("restart".into());
+            }
+            ops.push(format!("keysend {} 100000000 {}", h, now));
+            sims[b].cp_out.push((h, *rng.pick(&[100_000u64, 600]), 500));
+            ops.push(sims[b].cpsign(b, "new"));
         }
         if rng.chance(1, 6) {
             // an approved hash whose incoming HTLC differs between the holder and the counterparty view, then outgoing
@@ -847,9 +873,10 @@ fn approval_class(r: &Result<bool, lightning_signer::util::status::Status>, op: 
 fn exec_op(w: &mut World, t: &[&str], at: usize, co: &mut CaseOut) -> Option<(String, bool)> {
     match t {
         ["keysend", h, amt, now, ap @ ..] => {
-            let negative = match ap {
-                [] => false,
-                ["neg"] => true,
+            let (negative, direct) = match ap {
+                [] => (false, false),
+                ["neg"] => (true, false),
+                ["direct"] => (false, true),
                 _ => return None,
             };
             let h: usize = h.parse().ok()?;
@@ -858,7 +885,11 @@ fn exec_op(w: &mut World, t: &[&str], at: usize, co: &mut CaseOut) -> Option<(St
             let h = h % NHASH;
             w.clock.set(Duration::from_secs(now));
             // through the approver of vls-protocol-signer, as the protocol handler does
-            let r = if negative {
+            let r = if direct {
+                // straight into the node (what the approver does after saying yes), so that add_keysend's own
+                // "already have this hash" branch is exercised as well
+                w.ctx.node.add_keysend(make_test_pubkey(1), phash(h), amt)
+            } else if negative {
                 NegativeApprover().handle_proposed_keysend(&w.ctx.node, make_test_pubkey(1), phash(h), amt)
             } else {
                 PositiveApprover().handle_proposed_keysend(&w.ctx.node, make_test_pubkey(1), phash(h), amt)
@@ -871,9 +902,10 @@ fn exec_op(w: &mut World, t: &[&str], at: usize, co: &mut CaseOut) -> Option<(St
             Some((cls, false))
         }
         ["invoice", h, amt, now, expiry, tag, ap @ ..] => {
-            let negative = match ap {
-                [] => false,
-                ["neg"] => true,
+            let (negative, direct) = match ap {
+                [] => (false, false),
+                ["neg"] => (true, false),
+                ["direct"] => (false, true),
                 _ => return None,
             };
             // a real signed BOLT-11 invoice for the hash, issued at `now`
@@ -898,7 +930,9 @@ fn exec_op(w: &mut World, t: &[&str], at: usize, co: &mut CaseOut) -> Option<(St
                 .amount_milli_satoshis(amt)
                 .build_signed(|hash| Secp256k1::new().sign_ecdsa_recoverable(hash, &key))
                 .ok()?;
-            let r = if negative {
+            let r = if direct {
+                w.ctx.node.add_invoice(Invoice::Bolt11(inv))
+            } else if negative {
                 NegativeApprover().handle_proposed_invoice(&w.ctx.node, Invoice::Bolt11(inv))
             } else {
                 PositiveApprover().handle_proposed_invoice(&w.ctx.node, Invoice::Bolt11(inv))
